@@ -370,7 +370,7 @@ def make_batches(contracts: Sequence[MacroContract], tier: str) -> List[Tuple[Li
         mine = [c for c in contracts if w in c.widths]
         bins: List[List[MacroContract]] = []
         for c in mine:
-            if w == 16 or (c.domain is not None and not c.name.startswith('table:hex.')) or c.name.startswith('table:hex.add_mul') or c.max_ops > 2 * hexc.DIV_OPS:
+            if w == 16 or (c.domain is not None and not c.name.startswith('table:hex.')) or c.name.startswith('table:hex.add_mul'):
                 out.append(([c], w))
                 continue
             for b in reversed(bins[-6:]):
